@@ -187,6 +187,17 @@ def lockup_signature(prop, stderr):
     return None, None
 
 
+def r3_artefact(stderr):
+    """True if the stalled bubble holds a send that the simulated bus keeps stalling until its sender's context ends
+    (Bus.StallSendP): that end needs the simulated clock, which stands still while any goroutine of the bubble waits for a
+    standard mutex (rule R3). Such a stall is one of the simulation, not of the code under test; the run is discarded."""
+    for b in re.split(r"\n\s*\n", stderr or ""):
+        m = re.match(r"goroutine \d+ \[([^\]]*)\]:", b.strip())
+        if m and "synctest bubble" in m.group(1) and m.group(1).startswith("chan receive") and "verif/sim/world.(*Bus).Publish(" in b:
+            return True
+    return False
+
+
 def replay_once(binary, path, tmp, tag, want_trace=False, timeout=300):
     out = os.path.join(tmp, "rr-%s.json" % tag)
     if os.path.exists(out):
@@ -204,7 +215,7 @@ def replay_once(binary, path, tmp, tag, want_trace=False, timeout=300):
     prop = env["VERIF_PROP"]
     sig, head = crash_signature(prop, p.stderr)
     if p.returncode == 3 or "WATCHDOG" in (p.stderr or ""):
-        if PROPS.get(prop, {}).get("hang_is_lockup"):
+        if PROPS.get(prop, {}).get("hang_is_lockup") and not r3_artefact(p.stderr):
             lsig, ldet = lockup_signature(prop, p.stderr)
             if lsig:
                 return dict(kind="crash", violation=dict(check=lsig, detail=ldet, step=-1), stderr=p.stderr[-6000:])
@@ -485,6 +496,10 @@ def check_property(prop, tier, seed, workers, replay=None, budget_s=None, run_li
         summaries, violations, crashes, hangs = run_batch(binary, prop, tier, seed, tmp, plan, known_regex, workers, budget_s, run_limit=run_limit)
         nlock = 0
         for h in list(hangs):
+            if r3_artefact(h.get("stderr")):
+                log("note: one run discarded - the simulation stalled while the simulated bus was stalling a send (rule R3 artefact, DESIGN 10.2)")
+                hangs.remove(h)
+                continue
             if info.get("hang_is_lockup") and h.get("cur"):
                 lsig, ldet = lockup_signature(prop, h["stderr"])
                 if lsig:
